@@ -168,6 +168,10 @@ fun typedv(a: Int, b: String): Int { a }
 fun badretv(): Int { "notint" }
 fun twov(a, b) { a }
 method mv(this: Sv, k: Int): Int { this.x + k }
+fun badrettypev(): Nosuchtypev { 1 }
+fun badparamtypev(a: Nosuchtypev) { a }
+method badmethrettypev(this: Sv): Nosuchtypev { this.x }
+fun genericretv<T>(a: T): List<T> { a }
 """
 
 
@@ -187,6 +191,12 @@ def language_sites():
         ("lang:user-param-type0", "", "typedv(\"s\", \"t\")"),
         ("lang:user-param-type1", "", "typedv(1, 2)"),
         ("lang:user-return-type", "", "badretv()"),
+        ("lang:user-return-unknown-type", "", "badrettypev()"),
+        ("lang:user-param-unknown-type", "", "badparamtypev(1)"),
+        ("lang:user-method-return-unknown-type", "", "Sv{ x: 1, y: \"a\" }.badmethrettypev()"),
+        ("lang:user-generic-return-type", "", "genericretv(3)"),
+        ("lang:closure-return-type", "", "(fun(a): String { a })(1)"),
+        ("lang:closure-param-type", "", "(fun(a: String) { a })(1)"),
         ("lang:user-method-arity", "", "Sv{ x: 1, y: \"a\" }.mv()"),
         ("lang:user-method-param", "", "Sv{ x: 1, y: \"a\" }.mv(\"s\")"),
         ("lang:call-nonfunction", "", "(3)(4, 5)"),
